@@ -237,7 +237,7 @@ def catalogue(full=False):
         for enc in (False, True):
             for target in range(2 if shape == 'RA' else 1):
                 for place in range(7):
-                    for idm in range(4):
+                    for idm in range(5):
                         for sgm in range(4):
                             for setting in range(7):
                                 if not full and (place + idm + sgm + setting) % 3 and setting not in (0, 1):
